@@ -32,7 +32,7 @@ let run () =
   let k = ref 0 in
   (* hypothesis of the no-error / exactly-once theorems (TW/WorkerOnceApp.v): every schedulable type is below LP_INIT *)
   Printf.printf "T %d\n" (if types_okb p then 1 else 0);
-  dump !k p (fst !w); dump_term (snd !w);
+  dump !k p (!w).tw_w; dump_term (!w).tw_t;
   iter_lines (fun line ->
     match split line with
     | [] -> ()
@@ -47,5 +47,5 @@ let run () =
         | 'E' -> Some (OpE (nat_of_int 2000000))
         | _ -> None) in
       (match o with
-       | Some o -> w := twstep p ck tmax !w o; incr k; dump !k p (fst !w); dump_term (snd !w)
+       | Some o -> w := twstep p ck tmax !w o; incr k; dump !k p (!w).tw_w; dump_term (!w).tw_t; if (!w).tw_ovf then print_endline "OVF"
        | None -> ()))
